@@ -14,7 +14,7 @@ from gemato.recursiveloader import ManifestRecursiveLoader
 
 from .. import gen_tree as GT
 from ..common import call, mk_result, run_cli, viol, internal_violations
-from ..model import Model, cli_discovers_root_top
+from ..model import Model, cli_discovers_root_top, psw
 from ..oracles import write_violations, describe
 from ..seam import Seam
 from ..world import World, blocking_manifest
@@ -43,8 +43,15 @@ def generate(rng, tier, idx):
     lm = None
     if rng.random() < 0.12:
         lm = rng.choice([-3, -1, 0, 1, 2])
+    mount = None
+    if rng.random() < 0.12:
+        # one-file-system mode with another filesystem mounted on a directory of the tree: a structural problem
+        # that keep-going mode must still raise
+        vd = [d for d in info['view_dirs'] if d and not any(c.startswith('.') for c in d.split('/'))]
+        if vd:
+            mount = rng.choice(vd)
     return {'prop': ID, 'order_key': '%016x' % rng.getrandbits(64), 'top': 'Manifest',
-            'chunks': rng.choice([None, None, None, 'mixed', 'tiny', 4096]),
+            'chunks': rng.choice([None, None, None, 'mixed', 'tiny', 4096]), 'mount': mount,
             'tree': g['tree'], 'manifests': g['manifests'], 'muts': muts,
             'ops': [{'op': 'verify', 'sub': sub, 'last_mtime': lm,
                      'policy': rng.choice(['false', 'false', 'true', 'none', 'mixed', 'mixed']),
@@ -79,7 +86,10 @@ def execute(sc):
                 applied += 1
                 kk = 'storage.' + m['m'] + ('->' + m['k'] if m['m'] in ('retype', 'add') and 'k' in m else '')
                 applied_kinds[kk] = applied_kinds.get(kk, 0) + 1
-        seam = Seam(w.root, order_key=sc['order_key'], virtual_root=True, read_chunks=sc.get('chunks'))
+        mnt = sc.get('mount')
+        seam = Seam(w.root, order_key=sc['order_key'], virtual_root=True, read_chunks=sc.get('chunks'),
+                    mounts=({mnt: 2001} if mnt else None), default_dev=(1001 if mnt else None))
+        xkw = {'allow_xdev': False} if mnt else {}
         if blocking_manifest(w.root):
             return mk_result([seam], [], False, outcome='skipped: FIFO Manifest', dontcare={'fifo-manifest': 1})
         model = Model(w.root, 'Manifest')
@@ -100,7 +110,7 @@ def execute(sc):
                 seam.begin_op(i)
 
                 def lib():
-                    m = ManifestRecursiveLoader(top_path)
+                    m = ManifestRecursiveLoader(top_path, **xkw)
                     return m.assert_directory_verifies(sub, fail_handler=handler, last_mtime=lm_abs)
                 r = call(lib)
                 cli = None
@@ -108,7 +118,7 @@ def execute(sc):
                 if real_sub and sub and not cli_discovers_root_top(w.root, sub):
                     real_sub = False
                 if op.get('api') == 'both' and lm is None and real_sub:
-                    cli = run_cli(['verify', '--keep-going', os.path.join(w.root, sub) if sub else w.root])
+                    cli = run_cli(['verify', '--keep-going'] + (['-x'] if mnt else []) + [os.path.join(w.root, sub) if sub else w.root])
             results.append(r)
             for z in set(v.zones):
                 zones[z] = zones.get(z, 0) + 1
@@ -117,6 +127,28 @@ def execute(sc):
             outcome.append([v.kind, r[0], r[1] if r[0] != 'ok' else repr(r[1]), sorted(calls), (cli or {}).get('rc')])
             if r[0] == 'INTERNAL':
                 continue
+            if mnt:
+                is_xdev = r[0] == 'GE' and r[1] == 'ManifestCrossDevice'
+                mp_ = os.path.join(w.root, mnt)
+                if v.kind in ('OK', 'MISMATCH') and psw(mnt, sub) and os.path.isdir(mp_) and \
+                        os.path.realpath(mp_) == os.path.normpath(mp_) and \
+                        not any(e_['tag'] == 'IGNORE' and psw(mnt, p_) for p_, e_ in v.entries.items()):
+                    counters['foreign_directory_in_scope'] = counters.get('foreign_directory_in_scope', 0) + 1
+                    if not is_xdev and ((r[0] == 'OS' and (r[1] in v.oserr or (r[1] == 'ENOTDIR' and getattr(v, 'enotdir', False)) or r[1] == 'ELOOP'))
+                                        or (r[0] == 'GE' and r[1] == 'UnsupportedHash' and (v.unsupported or 'unsupported-hash' in v.offending.values()))):
+                        zones['verdict:other-failure-first'] = zones.get('verdict:other-failure-first', 0) + 1
+                    elif not is_xdev:
+                        violations.append(viol('keepgoing.structural-not-raised',
+                                               '%s (one-file-system mode): %r is on another device, gemato %s; handler calls %r' % (
+                                                   what, mnt, describe(r), calls), sig='xdev->%s:%s' % (r[0], r[1] if r[0] != 'ok' else r[1])))
+                    elif cli is not None and cli.get('kind') == 'ok' and cli.get('rc') == 0:
+                        violations.append(viol('cli.keepgoing', '%s: CLI -x --keep-going exit 0 with a foreign directory in scope' % what, sig='xdev-cli'))
+                    else:
+                        judged += 1
+                    continue
+                if is_xdev:
+                    zones['foreign-device-reached-otherwise'] = zones.get('foreign-device-reached-otherwise', 0) + 1
+                    continue
             if v.kind in ('DONTCARE', 'FAIL-ANY'):
                 zones['verdict:' + v.kind.lower()] = zones.get('verdict:' + v.kind.lower(), 0) + 1
                 if v.kind == 'FAIL-ANY' and r[0] == 'ok' and r[1] is True:
